@@ -61,6 +61,26 @@ type opRes struct {
 	pan interface{}
 }
 
+// await waits d for the operation; on a loaded machine a missing return is given three more
+// periods before it is called a hang: an operation that is parked for good stays parked, one that
+// is merely slow comes back.
+func await(ch chan opRes, d time.Duration, t00 time.Time) (opRes, bool) {
+	select {
+	case r := <-ch:
+		return r, true
+	case <-time.After(d):
+	}
+	if !mon.LoadedSince(t00) {
+		return opRes{}, false
+	}
+	select {
+	case r := <-ch:
+		return r, true
+	case <-time.After(3 * d):
+		return opRes{}, false
+	}
+}
+
 func runOp(f func() (string, error)) chan opRes {
 	ch := make(chan opRes, 1)
 	go func() {
@@ -264,14 +284,9 @@ func runOnce(d Desc, settle time.Duration) mon.Result {
 		// and one of another kind: nothing may be answered from what the driver remembered
 		w2 := s.Conn.Writes()
 		phase.Store(3)
-		select {
-		case lr = <-runOp(func() (string, error) { return sc.Later2(s) }):
-		case <-time.After(laterAfter):
-			if mon.LoadedSince(t00) {
-				r := mon.Result{Verdict: mon.Inconclusive, Detail: "second later operation not returned, machine loaded"}
-				return &r
-			}
-			r := viol("c06/later-hang:"+d.Scenario, "the second operation after the loss has not returned after %s\n%s", laterAfter, libStacks())
+		var back bool
+		if lr, back = await(runOp(func() (string, error) { return sc.Later2(s) }), laterAfter, t00); !back {
+			r := viol("c06/later-hang:"+d.Scenario, "the second operation after the loss has not returned after %s (4x that on a loaded machine)\n%s", laterAfter, libStacks())
 			return &r
 		}
 		if lr.pan != nil {
@@ -303,13 +318,9 @@ func runOnce(d Desc, settle time.Duration) mon.Result {
 		laterRan = true
 		t1 := time.Now()
 		var lr opRes
-		select {
-		case lr = <-runOp(func() (string, error) { return sc.Later(s) }):
-		case <-time.After(laterAfter):
-			if mon.LoadedSince(t00) {
-				return mon.Result{Verdict: mon.Inconclusive, Detail: "later operation not returned, machine loaded"}
-			}
-			return viol("c06/later-hang:"+d.Scenario, "the operation after the loss has not returned after %s\n%s", laterAfter, libStacks())
+		var back bool
+		if lr, back = await(runOp(func() (string, error) { return sc.Later(s) }), laterAfter, t00); !back {
+			return viol("c06/later-hang:"+d.Scenario, "the operation after the loss has not returned after %s (4x that on a loaded machine)\n%s", laterAfter, libStacks())
 		}
 		if lr.pan != nil {
 			return viol("c06/panic-in-caller-later:"+d.Scenario, "later operation panicked: %v", lr.pan)
@@ -526,7 +537,7 @@ func init() {
 			c.Decode(&d)
 			return d.Sched
 		},
-		CaseTimeout:     90 * time.Second,
+		CaseTimeout:     240 * time.Second,
 		HangIsViolation: true,
 	})
 }
